@@ -15,7 +15,10 @@ Flow records:   `auth st=… cimd=… pre=… dcr=… u=<url> hm=… ch=… hdr=
                 world of the record, prints the same form, and evaluates the C15 monitor on the
                 IMPLEMENTATION's observation (request log, outcome, token source changed?) — the monitor
                 uses only the specification predicates, the scripted world of the round and what the
-                implementation did in earlier rounds of the case, never `authorize`.
+                implementation did in earlier rounds of the case, never `authorize`.  The monitor is
+                the typed `monitor` of Monitor.lean (bridged to the model by Bridge.lean, to the
+                property clauses by Sound.lean); this file is the string layer: token parser,
+                renderer, clause texts (`Clause.text`).
 Parser records: `www <hex> <hex> …` (one token per header value) observation `err` | `ok <challenge>…`;
                 `wwwfuzz <hex>` (arbitrary bytes) observation `nopanic`.
 -/
@@ -298,7 +301,7 @@ def engine : Engine (Option HState) where
     | ["reset"] => (none, { model := "ok" })
     | "www" :: hexes => (st, { model := wwwModel hexes })
     | ["wwwfuzz", _] =>
-      (st, { model := "nopanic", violated := if impl == "nopanic" then none else some "C15: ParseWWWAuthenticate panics" })
+      (st, { model := fuzzOk, violated := if chkFuzz impl then some "C15: ParseWWWAuthenticate panics" else none })
     | "auth" :: rest =>
       match parseCase none rest with
       | none => (none, { model := "bad-op" })
